@@ -135,7 +135,7 @@ template <> struct ops<static_block_allocator>
     static T* make(void* s) { return new (s) T(1024, g_static[g_static_next++ % 4]); }
     static bool take(T& t, handle& h, std::size_t) { try { h.blk = t.allocate_block(); } catch (...) { return false; } h.p = h.blk.memory; h.size = 64; return true; }
     static void give(T& t, handle& h) { t.deallocate_block(h.blk); }
-    static std::size_t figure(T& t) { return t.next_block_size(); }
+    static std::size_t figure(T& t) { return t.cur_ ? std::size_t(t.end_ - t.cur_) : 0u; }      // bytes left in the storage it owns: must travel with a move / swap
 };
 template <> struct ops<virtual_block_allocator>
 {
